@@ -1163,6 +1163,8 @@ class Executor:
         if isinstance(n.op, ast.Not):
             t = self.truth(st, v, n)
             return (not t) if isinstance(t, bool) else B(z3.Not(t))
+        if hasattr(v, 'abs_unop'):
+            return v.abs_unop(self, st, n.op, n)
         if isinstance(n.op, ast.USub):
             c, k = const_of(v)
             if c and isinstance(k, (int, float)):
@@ -1460,6 +1462,8 @@ class Executor:
                                         n)
         if isinstance(f, Unknown):
             return self.lib.call_unknown(self, st, f, args, kwargs, n)
+        if hasattr(f, 'abs_call'):
+            return f.abs_call(self, st, args, kwargs, n)
         if f is None:
             raise PyRaise('TypeError', "'NoneType' object is not callable")
         if isinstance(f, Dyn):
